@@ -559,6 +559,15 @@ func apply(op gen.Op, cur *Rel, db DB, named map[string]*Rel, scope Scope) *Rel 
 			seen := map[string]bool{}
 			d := &Rel{Cols: left.Cols}
 			for _, r := range left.Rows {
+				if len(left.Rows) > 1 {
+					for _, v := range r {
+						if prim.IsPoison(v) {
+							// whether two rows are duplicates would depend on a
+							// value the properties are silent about
+							dontCare("duplicate removal of innerunique")
+						}
+					}
+				}
 				k := prim.Key(r)
 				if !seen[k] {
 					seen[k] = true
